@@ -573,10 +573,16 @@ class Ctx:
             c = d.const_value()
             return {"<": c < 0, "<=": c <= 0, "==": c == 0, "!=": c != 0}[op]
         # a denominator that is a product of atoms declared positive does not affect the sign
-        if not poly.p_is_const(d.den) and len(d.den) == 1 and self.positive:
-            (m, cden), = d.den.items()
-            if cden > 0 and all(poly.atom_by_id(k).name in self.positive for k, _ in m):
+        if not poly.p_is_const(d.den) and self.positive:
+            # every monomial of the denominator is a positive coefficient times atoms declared positive => denominator > 0
+            if all(cden > 0 and all(poly.atom_by_id(k).name in self.positive for k, _ in m) for m, cden in d.den.items()):
                 d = RatFunc(dict(d.num), poly.p_const(1), self.tab)._norm()
+        if self.positive and op in ("==", "!=") and poly.p_is_const(d.den) and len(d.num) == 1:
+            # c * p1^a * x^b == 0  <=>  x == 0   (c != 0, p1 > 0)
+            (m, cn), = d.num.items()
+            m2 = tuple((k, 1) for k, _e in m if poly.atom_by_id(k).name not in self.positive)
+            if m2 and (m2 != m or cn != 1):
+                d = RatFunc({m2: Fraction(1)}, poly.p_const(1), self.tab)._norm()
         if self.positive and poly.p_is_const(d.den) and d.num:
             # a sum of products of positive atoms with coefficients of one sign has that sign
             dc = poly.p_const_value(d.den)
@@ -934,7 +940,7 @@ class Evaluator:
                     self.bind_uninit(s["pat"], fr.env)
                     continue
                 v = self.ev(s["init"], fr)
-                if self.let_hook is not None and s["pat"]["k"] == "bind":
+                if self.let_hook is not None and s["pat"]["k"] in ("bind", "slice", "tuple"):
                     v = self.let_hook(v)
                 self.bind(s["pat"], v, fr.env)
             else:
